@@ -242,6 +242,10 @@ func c21Gen(t *rapid.T) c21Case {
 	if f.Syntax == gen.Ed2023 && gen.Pct(t, 60, "gofeature") {
 		f.Imports = append(f.Imports, gen.Import{Path: "google/protobuf/go_features.proto"})
 		f.Options = append(f.Options, gen.Opt{Name: "features.(pb.go).api_level", Value: "API_OPAQUE", IsCustom: true})
+		if gen.Pct(t, 60, "gofeature2") {
+			// a second consecutive statement that cannot be interpreted unlinked
+			f.Options = append(f.Options, gen.Opt{Name: "features.(pb.go).legacy_unmarshal_json_enum", Value: "true", IsCustom: true})
+		}
 	}
 	return c21Case{Files: ws.PrintAll(), Target: f.Name}
 }
